@@ -10,7 +10,7 @@ namespace XotModel
 def prefixRegsE (pfx : Str) (uri : StrSpan) : List Reg :=
   match parseContentE true uri.start uri.text with
   | .error _ => []
-  | .ok u => [.pfx pfx, .ns u]
+  | .ok u => if reservedDecl pfx u then [] else [.pfx pfx, .ns u]
 
 theorem prefixRegsE_eq (pfx : Str) (uri : StrSpan) : prefixRegsE pfx uri = prefixRegs pfx uri := by
   unfold prefixRegsE prefixRegs
